@@ -17,7 +17,8 @@ use std::panic::{catch_unwind, AssertUnwindSafe};
 pub enum TokA {
     #[regex("[a-z]+")]
     Word,
-    #[regex("[0-9]+")]
+    // (a look-ahead at the end: the only kind of pattern whose accept is recorded one byte late)
+    #[regex("[0-9]+(?-u:\\b)")]
     Num,
     #[token("é")]
     E,
